@@ -46,7 +46,7 @@ def run(ctx):
                     ctx.ob('R04.1', f'{p.split("::")[-1]}|implicit drop of {ty.split("::")[-1][:40]}', (p, ty) in allow,
                            f'{p}: a value of type {ty[:80]} is dropped implicitly (its resources are never released to the allocator)', b.loc(bi))
     ctx.ob('R04.1', 'no implicit drop in synchronous worker functions', True, f'{nb} elaborated bodies, {nd} drop terminators inspected', None)
-    ctx.floor('R04.1', nb, 40, 'elaborated worker bodies')
+    ctx.floor('R04.1', nb, 20, 'elaborated worker bodies')
 
     # ---- R04.2
     htf = [prog.bodies[p] for p in prog.with_closures(REACT + 'handle_task_future') if prog.bodies[p].kind == 'coroutine']
